@@ -248,10 +248,20 @@ impl LibraryPath {
         // special handling of the first component as it may contain non-alphanumeric characters
         let (path, mut num_components) = if source.as_ref().starts_with(Self::KERNEL_PATH) {
             let split_at = Self::KERNEL_PATH.len() + Self::PATH_DELIM.len();
-            (source.as_ref().split_at(split_at).1, 1)
+            match source.as_ref().get(split_at..) {
+                Some(path) => (path, 1),
+                // the special component is the whole path, or it is followed by something too
+                // short to be a delimiter and a component
+                None if source.as_ref() == Self::KERNEL_PATH => return Ok(1),
+                None => (source.as_ref(), 0),
+            }
         } else if source.as_ref().starts_with(Self::EXEC_PATH) {
             let split_at = Self::EXEC_PATH.len() + Self::PATH_DELIM.len();
-            (source.as_ref().split_at(split_at).1, 1)
+            match source.as_ref().get(split_at..) {
+                Some(path) => (path, 1),
+                None if source.as_ref() == Self::EXEC_PATH => return Ok(1),
+                None => (source.as_ref(), 0),
+            }
         } else {
             (source.as_ref(), 0)
         };
